@@ -60,12 +60,14 @@ func cyclePick(key string, pool []string) string {
 
 func invalidHeader(r *gen.R, h ir.Header) string {
 	switch h.Type {
+	// (the last entries of the typed pools are ill-formed AND not valid UTF-8: whatever the server quotes of the value,
+	// the answer is still a ValidationError that can be encoded)
 	case "integer":
-		return gen.Pick(r, []string{"abc", "1.5", "12x"})
+		return cyclePick("integer", []string{"abc", "1.5", "12x", "12\xff", "7\xa0"})
 	case "number":
-		return gen.Pick(r, []string{"abc", "1,5", "--1"})
+		return cyclePick("number", []string{"abc", "1,5", "--1", "0,5\xe9", "\xfe1.5"})
 	case "boolean":
-		return gen.Pick(r, []string{"yes", "2", "tru"})
+		return cyclePick("boolean", []string{"yes", "2", "tru", "tru\xe9", "\xff"})
 	case "array":
 		return gen.Pick(r, []string{" ", "\t"})
 	}
@@ -366,6 +368,12 @@ func C09(c *Ctx) error {
 					res.Violation("body_read_before_headers", fmt.Sprintf("%v: a header rejection also reports the body", k.op["url"]), replay)
 				}
 			}
+		}
+		// (2') a request refused for its headers is answered with a ValidationError that NAMES at least one header: a 400
+		// that lists nothing (an error body that could not be encoded and fell back to plain text) tells the caller
+		// nothing the property promises
+		if status == 400 && called == 0 && len(realViol) == 0 && !k.badBody {
+			res.Violation("header_rejection_lists_nothing", fmt.Sprintf("%v: refused with status 400, but the answer lists no violation (content type %v, body %.80q)", k.op["url"], o["ct"], fmt.Sprint(o["body"])), replay)
 		}
 		if d == nil {
 			continue
